@@ -492,6 +492,14 @@ func gateScenarios(tier string) []*gateScenario {
 			thb = append(thb, []gateOp{su(2, ids[:2]...)})
 			out = append(out, &gateScenario{name: fmt.Sprintf("resetup-resignal/n%d", n), initial: ids[:2], threads: thb})
 		}
+		// the new set-up names a different participant who takes over an index of the old one
+		if n == 1 {
+			out = append(out, &gateScenario{name: "resetup-replace/n1", initial: ids, threads: [][]gateOp{{rd("a")}, {su(2, "x")}}})
+			out = append(out, &gateScenario{name: "resetup-replace-late-signal/n1", initial: ids, threads: [][]gateOp{{rd("a"), rd("a")}, {su(2, "x")}, {rd("x")}}})
+		}
+		if n == 2 {
+			out = append(out, &gateScenario{name: "resetup-replace/n2", initial: ids, threads: [][]gateOp{{rd("a")}, {rd("b")}, {su(2, "x", "a")}}})
+		}
 		if n == 1 {
 			out = append(out, &gateScenario{name: "resetup-twice/n1", initial: ids, threads: [][]gateOp{{rd("a"), rd("a")}, {su(2, "a"), su(3, "a")}}})
 		}
